@@ -34,6 +34,19 @@ EXTRACT ("C10Quat", q_invertRet, "C10.Quat.invertRet", { IN (Quat, q); Quat<T> r
 EXTRACT ("C10Quat", q_div, "C10.Quat.div", { IN (Quat, a); IN (Quat, b); c.out (a / b); })
 EXTRACT ("C10Quat", q_divAssign, "C10.Quat.divAssign", { IN (Quat, a); IN (Quat, b); a /= b; c.out (a); })
 EXTRACT ("C10Quat", q_dot4, "C10.Quat.dot4", { IN (Quat, a); IN (Quat, b); c.outS (a ^ b); })
+// ---- aliasing (the same object on both sides): the compound operators and the spellings that pass one object twice must still
+//      compute with the ORIGINAL operand values (`q *= q` reads q.r after a member may already have been overwritten).
+//      C05 has the matrix / generic product entries; these are C10's own: every product / quotient spelling the rotation code uses.
+EXTRACT ("C10Quat", q_mulAssign, "C10.Quat.mulAssign", { IN (Quat, a); IN (Quat, b); a *= b; c.out (a); })
+EXTRACT ("C10Quat", q_mulAssignSelf, "C10.Quat.mulAssignSelf", { IN (Quat, a); a *= a; c.out (a); })
+EXTRACT ("C10Quat", q_mulSelf, "C10.Quat.mulSelf", { IN (Quat, a); a = a * a; c.out (a); })
+EXTRACT ("C10Quat", q_divAssignSelf, "C10.Quat.divAssignSelf", { IN (Quat, a); a /= a; c.out (a); })
+EXTRACT ("C10Quat", q_divSelf, "C10.Quat.divSelf", { IN (Quat, a); a = a / a; c.out (a); })
+EXTRACT ("C10Quat", q_mulAssignInverseSelf, "C10.Quat.mulAssignInverseSelf", { IN (Quat, a); a *= a.inverse (); c.out (a); })
+EXTRACT ("C10Quat", q_mulAssignConjSelf, "C10.Quat.mulAssignConjSelf", { IN (Quat, a); a *= ~a; c.out (a); })
+EXTRACT ("C10Quat", q_setAxisAngleAliasV, "C10.Quat.setAxisAngleAliasV", { IN (Quat, q); T radians = c.inS ("radians"); q.setAxisAngle (q.v, radians); c.out (q); })
+EXTRACT ("C10Quat", q_rotateVectorAliasV, "C10.Quat.rotateVectorAliasV", { IN (Quat, q); q.v = q.rotateVector (q.v); c.out (q); })
+EXTRACT ("C10Quat", q_slerpSame, "C10.Quat.slerpSame", { IN (Quat, q); T t = c.inS ("t"); c.out (slerp (q, q, t)); })
 // ---- length, normalize
 EXTRACT ("C10Quat", q_length, "C10.Quat.length", { IN (Quat, q); c.outS (q.length ()); })
 EXTRACT ("C10Quat", q_normalize, "C10.Quat.normalize", { IN (Quat, q); q.normalize (); c.out (q); })
